@@ -20,7 +20,8 @@ import (
 // raw is what follows "Raw value: " (minus the final newline); has reports
 // whether such a line was printed at all.
 func decryptCLI(s *sut.SUT, dir, keyFile, value string) (raw string, has bool, r sut.Result) {
-	r = s.CLI(sut.Run{Args: []string{"decrypt", "--decryptionKeyFile", keyFile, "--", value}, Dir: dir})
+	// the decrypting process is another process, possibly another build: its version string (ANONYMONGO_VERSION) differs
+	r = s.CLI(sut.Run{Args: []string{"decrypt", "--decryptionKeyFile", keyFile, "--", value}, Dir: dir, Env: []string{"ANONYMONGO_VERSION=4." + fmt.Sprint(len(value)%7) + ".0"}})
 	const m = "Raw value: "
 	i := bytes.Index(r.Stdout, []byte(m))
 	if i < 0 {
